@@ -188,14 +188,74 @@ def expected : List (String × List Entry) := [
     ⟨"range:audience", .total "bounded loop"⟩]),
   ("auth/api/iam/openid4vp.go:Wrapper.getClientMetadataFromRequest", [
     ⟨"nilcheck:metadata == nil", .sampled "iam.handleAuthorizeRequestFromVerifier"⟩]),
-  ("auth/api/iam/openid4vp.go:Wrapper.getPresentationDefinitionFromRequest", []),
+  ("auth/api/iam/openid4vp.go:Wrapper.getPresentationDefinitionFromRequest", [
+    ⟨"guardcall:pe.ParsePresentationDefinition", .sampled "iam.handleAuthorizeRequestFromVerifier"⟩]),
   ("auth/client/iam/client.go:HTTPClient.PresentationDefinition", [
-    ⟨"assertok:err.(oauth.OAuth2Error)", .sampled "iamclient.PresentationDefinition"⟩]),
+    ⟨"assertok:err.(oauth.OAuth2Error)", .sampled "iamclient.PresentationDefinition"⟩,
+    ⟨"guardcall:checkNoNullEntries", .sampled "iamclient.PresentationDefinition"⟩]),
   ("auth/client/iam/client.go:checkNoNullEntries", [
     ⟨"range:definition.InputDescriptors", .sampled "iamclient.PresentationDefinition"⟩,
     ⟨"nilcheck:descriptor == nil", .sampled "iamclient.PresentationDefinition"⟩,
     ⟨"range:requirements", .sampled "iamclient.PresentationDefinition"⟩,
     ⟨"nilcheck:requirement == nil", .sampled "iamclient.PresentationDefinition"⟩]),
+  ("vcr/pe/presentation_definition.go:PresentationDefinition.Match", [
+    ⟨"guardcall:presentationDefinition.checkNoNilEntries", .sampled "pe.match+validate (parallel-array invariant of Match; the PE model is C12)"⟩,
+    ⟨"lencheck:len(presentationDefinition.SubmissionRequirements) > 0", .sampled "pe.match+validate (parallel-array invariant of Match; the PE model is C12)"⟩]),
+  ("vcr/pe/presentation_definition.go:PresentationDefinition.matchBasic", [
+    ⟨"range:candidates", .sampled "pe.match+validate (parallel-array invariant of Match; the PE model is C12)"⟩,
+    ⟨"nilcheck:candidate.VC == nil", .sampled "pe.match+validate (parallel-array invariant of Match; the PE model is C12)"⟩,
+    ⟨"lencheck:len(descriptorsNotMatched) > 0", .sampled "pe.match+validate (parallel-array invariant of Match; the PE model is C12)"⟩,
+    ⟨"range:candidates", .sampled "pe.match+validate (parallel-array invariant of Match; the PE model is C12)"⟩,
+    ⟨"indexw:matchingCredentials[i]", .sampled "pe.match+validate (parallel-array invariant of Match; the PE model is C12)"⟩,
+    ⟨"deref:*candidate.VC", .sampled "pe.match+validate (parallel-array invariant of Match; the PE model is C12)"⟩]),
+  ("vcr/pe/presentation_definition.go:PresentationDefinition.matchSubmissionRequirements", [
+    ⟨"range:presentationDefinition.SubmissionRequirements", .sampled "pe.match+validate (parallel-array invariant of Match; the PE model is C12)"⟩,
+    ⟨"range:submissionRequirement.groups()", .sampled "pe.match+validate (parallel-array invariant of Match; the PE model is C12)"⟩,
+    ⟨"indexw:availableGroups[group]", .sampled "pe.match+validate (parallel-array invariant of Match; the PE model is C12)"⟩,
+    ⟨"range:presentationDefinition.groups()", .sampled "pe.match+validate (parallel-array invariant of Match; the PE model is C12)"⟩,
+    ⟨"index:availableGroups[group.Name]", .sampled "pe.match+validate (parallel-array invariant of Match; the PE model is C12)"⟩,
+    ⟨"range:candidates", .sampled "pe.match+validate (parallel-array invariant of Match; the PE model is C12)"⟩,
+    ⟨"range:match.InputDescriptor.Group", .sampled "pe.match+validate (parallel-array invariant of Match; the PE model is C12)"⟩,
+    ⟨"index:availableGroups[group]", .sampled "pe.match+validate (parallel-array invariant of Match; the PE model is C12)"⟩,
+    ⟨"indexw:availableGroups[group]", .sampled "pe.match+validate (parallel-array invariant of Match; the PE model is C12)"⟩,
+    ⟨"range:presentationDefinition.SubmissionRequirements", .sampled "pe.match+validate (parallel-array invariant of Match; the PE model is C12)"⟩,
+    ⟨"label:outer", .sampled "pe.match+validate (parallel-array invariant of Match; the PE model is C12)"⟩,
+    ⟨"range:uniqueVCs", .sampled "pe.match+validate (parallel-array invariant of Match; the PE model is C12)"⟩,
+    ⟨"range:candidates", .sampled "pe.match+validate (parallel-array invariant of Match; the PE model is C12)"⟩,
+    ⟨"nilcheck:candidate.VC != nil", .sampled "pe.match+validate (parallel-array invariant of Match; the PE model is C12)"⟩,
+    ⟨"deref:*candidate.VC", .sampled "pe.match+validate (parallel-array invariant of Match; the PE model is C12)"⟩,
+    ⟨"branch:continue outer", .sampled "pe.match+validate (parallel-array invariant of Match; the PE model is C12)"⟩]),
+  ("vcr/pe/presentation_submission.go:PresentationSubmission.Validate", [
+    ⟨"lencheck:len(envelope.Presentations) == 0", .sampled "pe.match+validate"⟩,
+    ⟨"range:envelope.Presentations", .sampled "pe.match+validate"⟩,
+    ⟨"deref:*signer", .sampled "pe.match+validate"⟩,
+    ⟨"range:signInstruction.Mappings", .sampled "pe.match+validate"⟩,
+    ⟨"indexw:expectedCredentials[mapping.Id]", .sampled "pe.match+validate"⟩,
+    ⟨"index:signInstruction.VerifiableCredentials[i]", .sampled "pe.match+validate"⟩,
+    ⟨"lencheck:len(actualCredentials) != len(expectedCredentials)", .sampled "pe.match+validate"⟩,
+    ⟨"range:expectedCredentials", .sampled "pe.match+validate"⟩,
+    ⟨"index:actualCredentials[inputDescriptorID]", .sampled "pe.match+validate"⟩]),
+  ("vcr/pe/presentation_submission.go:PresentationSubmission.Resolve", [
+    ⟨"range:s.DescriptorMap", .sampled "pe.match+validate"⟩,
+    ⟨"index:result[inputDescriptor.Id]", .sampled "pe.match+validate"⟩,
+    ⟨"indexw:result[inputDescriptor.Id]", .sampled "pe.match+validate"⟩,
+    ⟨"deref:*resolvedCredential", .sampled "pe.match+validate"⟩]),
+  ("vcr/pe/presentation_submission.go:PresentationSubmissionBuilder.Build", [
+    ⟨"range:b.wallets", .sampled "pe.match+validate"⟩,
+    ⟨"index:b.holders[i]", .sampled "pe.match+validate"⟩,
+    ⟨"index:b.holders[i]", .sampled "pe.match+validate"⟩,
+    ⟨"nilcheck:selectedDID == nil", .sampled "pe.match+validate"⟩,
+    ⟨"index:b.holders[0]", .sampled "pe.match+validate"⟩,
+    ⟨"deref:*selectedDID", .sampled "pe.match+validate"⟩,
+    ⟨"lencheck:len(signInstruction.Mappings) == 1", .sampled "pe.match+validate"⟩,
+    ⟨"index:signInstruction.Mappings[0]", .sampled "pe.match+validate"⟩]),
+  ("discovery/module.go:Module.Search", [
+    ⟨"index:m.allDefinitions[serviceID]", .sampled "pe.match+validate (the indexing loop of Search is replayed on Match results; the discovery model is C16)"⟩,
+    ⟨"range:matchingVPs", .sampled "pe.match+validate (the indexing loop of Search is replayed on Match results; the discovery model is C16)"⟩,
+    ⟨"for:i < len(inputDescriptorMappingObjects)", .sampled "pe.match+validate (the indexing loop of Search is replayed on Match results; the discovery model is C16)"⟩,
+    ⟨"index:inputDescriptorMappingObjects[i]", .sampled "pe.match+validate (the indexing loop of Search is replayed on Match results; the discovery model is C16)"⟩,
+    ⟨"indexw:credentialMap[inputDescriptorMappingObjects[i].Id]", .sampled "pe.match+validate (the indexing loop of Search is replayed on Match results; the discovery model is C16)"⟩,
+    ⟨"index:submissionVCs[i]", .sampled "pe.match+validate (the indexing loop of Search is replayed on Match results; the discovery model is C16)"⟩]),
   ("vcr/revocation/statuslist2021_verifier.go:StatusList2021.Verify", [
     ⟨"nilcheck:credentialToVerify.CredentialStatus == nil", .total "no status, nothing to verify"⟩,
     ⟨"range:statuses", .total "bounded loop (model: verifyEntries)"⟩]),
@@ -236,7 +296,8 @@ def expected : List (String × List Entry) := [
     ⟨"nilcheck:ecKey.X == nil", .sampled "didjwk.Resolve"⟩,
     ⟨"nilcheck:ecKey.Y == nil", .sampled "didjwk.Resolve"⟩]),
   ("vdr/didweb/web.go:Resolver.Resolve", [
-    ⟨"lencheck:len(baseURL.Path) == 0", .sampled "didweb.Resolve"⟩]),
+    ⟨"lencheck:len(baseURL.Path) == 0", .sampled "didweb.Resolve"⟩,
+    ⟨"guardcall:resolver.RejectNullKeyEntries", .sampled "didweb.Resolve"⟩]),
   ("vcr/credential/util.go:ResolveSubjectDID", [
     ⟨"range:credentials", .sampled "credential.vp / credential.vc"⟩,
     ⟨"deref:*sid", .sampled "credential.vp / credential.vc"⟩,
@@ -263,8 +324,10 @@ def expected : List (String × List Entry) := [
     ⟨"index:credentialSubject[0]", .sampled "credential.vp / credential.vc"⟩]),
   ("vcr/credential/util.go:FilterOnDIDMethod", [
     ⟨"lencheck:len(didMethods) == 0", .sampled "credential.vp / credential.vc"⟩,
+    ⟨"label:outer", .sampled "credential.vp / credential.vc"⟩,
     ⟨"range:credentials", .sampled "credential.vp / credential.vc"⟩,
-    ⟨"range:bl", .sampled "credential.vp / credential.vc"⟩]),
+    ⟨"range:bl", .sampled "credential.vp / credential.vc"⟩,
+    ⟨"branch:continue outer", .sampled "credential.vp / credential.vc"⟩]),
   ("vcr/credential/resolver.go:PresentationSigner", []),
   ("vcr/credential/resolver.go:ParseLDProof", [
     ⟨"lencheck:len(proofs) != 1", .sampled "credential.vp"⟩,
@@ -301,11 +364,30 @@ def expected : List (String × List Entry) := [
   ("vdr/didnuts/validators.go:verificationMethodValidator.Validate", [
     ⟨"range:document.VerificationMethod", .sampled "didnuts.validate+findKeyByThumbprint"⟩]),
   ("vdr/didnuts/validators.go:verificationMethodValidator.verifyThumbprint", [
-    ⟨"nilcheck:keyAsJWK == nil", .sampled "didnuts.validate+findKeyByThumbprint"⟩]),
+    ⟨"nilcheck:keyAsJWK == nil", .sampled "didnuts.validate+findKeyByThumbprint"⟩,
+    ⟨"guardcall:checkPublicKey", .sampled "didnuts.validate+findKeyByThumbprint"⟩]),
   ("vdr/didnuts/ambassador.go:ambassador.findKeyByThumbprint", [
     ⟨"range:didDocumentAuthKeys", .sampled "didnuts.accepted-doc-then-findKeyByThumbprint"⟩,
     ⟨"nilcheck:key.VerificationMethod == nil", .sampled "didnuts.accepted-doc-then-findKeyByThumbprint"⟩,
-    ⟨"nilcheck:keyAsJWK == nil", .sampled "didnuts.accepted-doc-then-findKeyByThumbprint"⟩]),
+    ⟨"nilcheck:keyAsJWK == nil", .sampled "didnuts.accepted-doc-then-findKeyByThumbprint"⟩,
+    ⟨"guardcall:checkPublicKey", .sampled "didnuts.accepted-doc-then-findKeyByThumbprint"⟩]),
+  ("vdr/didnuts/ambassador.go:ambassador.callback", [
+    ⟨"guardcall:resolver.RejectNullKeyEntries", .sampled "didnuts.validate+findKeyByThumbprint (guard + unmarshal + validator as in callback)"⟩]),
+  ("vdr/didnuts/validators.go:nilEntryValidator.Validate", [
+    ⟨"range:document.VerificationMethod", .sampled "didnuts.validate+findKeyByThumbprint"⟩,
+    ⟨"nilcheck:method == nil", .sampled "didnuts.validate+findKeyByThumbprint"⟩,
+    ⟨"range:[]did.VerificationRelationships{}", .sampled "didnuts.validate+findKeyByThumbprint"⟩,
+    ⟨"range:relationships", .sampled "didnuts.validate+findKeyByThumbprint"⟩,
+    ⟨"nilcheck:relationship.VerificationMethod == nil", .sampled "didnuts.validate+findKeyByThumbprint"⟩]),
+  ("vdr/didnuts/validators.go:NetworkDocumentValidator", [
+    ⟨"lit:nilEntryValidator{}", .sampled "didnuts.validate+findKeyByThumbprint"⟩,
+    ⟨"lit:did.W3CSpecValidator{}", .sampled "didnuts.validate+findKeyByThumbprint"⟩,
+    ⟨"lit:verificationMethodValidator{}", .sampled "didnuts.validate+findKeyByThumbprint"⟩,
+    ⟨"lit:basicServiceValidator{}", .sampled "didnuts.validate+findKeyByThumbprint"⟩]),
+  ("vdr/resolver/nullentries.go:RejectNullKeyEntries", [
+    ⟨"range:didDocumentKeyMembers", .sampled "didweb.Resolve / didnuts.validate+findKeyByThumbprint"⟩,
+    ⟨"index:members[name]", .sampled "didweb.Resolve / didnuts.validate+findKeyByThumbprint"⟩,
+    ⟨"range:entries", .sampled "didweb.Resolve / didnuts.validate+findKeyByThumbprint"⟩]),
   ("network/transport/v2/handlers.go:protocol.Handle", [
     ⟨"assert:raw.(*Envelope)", .sampled "v2.Handle"⟩,
     ⟨"range:allowedErrors", .sampled "v2.Handle"⟩]),
